@@ -391,6 +391,7 @@ def r11_8(prog: Program, rep: Report, rule="R11.8"):
                 if any(g == ("param", "exhaustive") and pol for g, pol in p.guards()) or any(T.contains(g, lambda y: y == ("param", "exhaustive")) and pol for g, pol in p.guards()):
                     fallback = True
     hints_namespace(prog, rep, rule)
+    hints_module_owner(prog, rep, rule)
     rep.check(uses, rule, gh.qualname, gh.loc, "hints come from typing.get_type_hints(obj) (aliases and string annotations resolved)", "get_type_hints is not built on typing.get_type_hints(obj)", detail="hints-source")
     rep.check(kwonly, rule, gh.qualname, gh.loc, "the dataclass KW_ONLY sentinel is filtered out", "the KW_ONLY sentinel is not filtered: a pseudo-field reaches the graph", detail="kw-only")
     rep.check(fallback, rule, gh.qualname, gh.loc, "signature hints are used only when asked for (exhaustive) and nothing else was found", "the signature fallback is not tied to `exhaustive`", detail="exhaustive")
@@ -409,6 +410,32 @@ def hints_namespace(prog: Program, rep: Report, rule: str):
         rep.undecided(rule, gh.qualname, gh.loc, "no call to typing.get_type_hints found", detail="hints-namespace")
         return
     rep.check(not bad, rule, gh.qualname, gh.loc, "string annotations are evaluated per defining class (no explicit namespace is passed to typing.get_type_hints)", "typing.get_type_hints is given an explicit globalns/localns: with one, the annotations of *every* class on the MRO are evaluated in that single namespace, so a member inherited from a base in another module is resolved against the subclass's module (a same-named class there silently replaces the declared one)", detail="hints-namespace")
+
+
+def hints_module_owner(prog: Program, rep: Report, rule: str):
+    """A string annotation found in a signature is looked up in the module of the object that *owns* the signature.  For an
+    alias (tuple['UserId', int], whose made-up signature carries its arguments) `__module__` is the module of the origin
+    class ('builtins'), not of the code that wrote the alias: the attribute must not be used for aliases."""
+    hs = prog.functions.get(f"{C.INSP}._hints_from_signature")
+    if hs is None:
+        rep.undecided(rule, f"{C.INSP}._hints_from_signature", "", "anchor not found", detail="hints-module-owner")
+        return
+    obj = ("param", hs.params[0])
+    mods = []
+    for p in P.paths_of(prog, hs):
+        for tm in p.all_terms():
+            for x in T.walk(tm):
+                if T.is_call_to(x, "typelib.py.refs.forwardref"):
+                    m = dict(x[3]).get("module")
+                    if m is not None:
+                        mods.append(m)
+    if not mods:
+        rep.held(rule, hs.qualname, hs.loc, "no module is passed for string annotations of a signature", detail="hints-module-owner", nontrivial=False)
+        return
+    own = lambda y: T.is_call_to(y, "builtins.getattr") and y[2][:2] == (obj, ("const", "__module__")) or y == ("attr", obj, "__module__")  # noqa: E731
+    alias_test = lambda y: T.is_call_to(y, "typing.get_origin", "inspect.isclass", f"{C.INSP}.issubscriptedgeneric", f"{C.INSP}.isgeneric") and y[2][:1] == (obj,)  # noqa: E731
+    bad = [m for m in mods if T.contains(m, own) and not T.contains(m, alias_test)]
+    rep.check(not bad, rule, hs.qualname, hs.loc, "the object's own __module__ is used for string annotations only when the object is not an alias", "string annotations of a signature are always looked up in obj.__module__: for an alias such as tuple['UserId', int] that attribute is the module of the origin class ('builtins'), so the member is evaluated there -- NameError: name 'UserId' is not defined, although list['UserId'] and Tuple['UserId', int] work", detail="hints-module-owner")
 
 
 def r11_6(prog: Program, rep: Report):
